@@ -284,12 +284,16 @@ Definition add_stmt : stmt :=
  (SIf (ECmp CNotIn (EVar "dna_sequence"%string) (EIndex (EVar "repaired_fragment_set"%string) (EVar "index"%string)))
  (SSetAdd2 "repaired_fragment_set"%string (EVar "index"%string) (EVar "fragment"%string))
  SSkip).
+Definition add_for : stmt :=
+ (SFor (TTuple ["_"%string; "fragment"%string]) (EVar "record"%string) add_stmt).
 Definition recall_body : stmt :=
  (SSeq (SAssign (TTuple ["record"%string; "times"%string]) (ECall "path_matching"%string [(EVar "chuck_sequence"%string); (EVar "accessor"%string); (EVar "vertex_index"%string); (EBin Sub (EBin Sub (EVar "observed_length"%string) (EVar "recall"%string)) (EInt (1))); (EVar "has_indel"%string); ENone]))
  (SSeq (SAug (TVar "visited_times"%string) Add (EVar "times"%string))
- (SFor (TTuple ["_"%string; "fragment"%string]) (EVar "record"%string) add_stmt))).
+ add_for)).
+Definition recall_for : stmt :=
+ (SFor (TTuple ["recall"%string; "vertex_index"%string]) (EB1 BEnumerate (EB1 BRev (EVar "index_marker"%string))) recall_body).
 Definition chunk_body : stmt :=
- (SSeq (SFor (TTuple ["recall"%string; "vertex_index"%string]) (EB1 BEnumerate (EB1 BRev (EVar "index_marker"%string))) recall_body)
+ (SSeq recall_for
  (SAssign (TIndex "repaired_fragment_set"%string (EVar "index"%string)) (EB1 BList (EIndex (EVar "repaired_fragment_set"%string) (EVar "index"%string))))).
 Definition chunk_loop : stmt :=
  (SFor (TPair "index"%string ["chuck_sequence"%string; "index_marker"%string]) (EB1 BEnumerate (EB2 BZip (EVar "chuck_sequences"%string) (EVar "index_markers"%string))) chunk_body).
@@ -306,9 +310,10 @@ Definition exit_if : stmt :=
  (SReturn (ETuple [(EList []); (ETuple [(EInt (0)); (EBoolLit true); (EInt (0)); (EVar "visited_times"%string)])])))
  (SReturn (ETuple [(EList [(EVar "dna_sequence"%string)]); (ETuple [(EInt (0)); (EBoolLit false); (EInt (0)); (EVar "visited_times"%string)])])))
  SSkip).
+Definition join_body : stmt :=
+ (SAug (TVar "repaired_dna_sequence"%string) Add (EBin Add (EIndex (EVar "split_sequences"%string) (EVar "index"%string)) (EIndex (EVar "fragments"%string) (EVar "index"%string)))).
 Definition join_loop : stmt :=
- (SFor (TVar "index"%string) (EB1 BRange (EBin Sub (EB1 BLen (EVar "split_sequences"%string)) (EInt (1))))
- (SAug (TVar "repaired_dna_sequence"%string) Add (EBin Add (EIndex (EVar "split_sequences"%string) (EVar "index"%string)) (EIndex (EVar "fragments"%string) (EVar "index"%string))))).
+ (SFor (TVar "index"%string) (EB1 BRange (EBin Sub (EB1 BLen (EVar "split_sequences"%string)) (EInt (1)))) join_body).
 Definition check_stmt : stmt :=
  (SIf (ENot (EB1 BIsNone (EVar "vt_check"%string)))
  (SIf (ECmp CEq (EVar "vt_check"%string) (ECall "set_vt"%string [(EVar "repaired_dna_sequence"%string); (EB1 BLen (EVar "vt_check"%string))]))
@@ -349,6 +354,33 @@ Proof. unfold slice_val, varr. cbn [opt_int rbind]. rewrite py_slice_map. reflex
 
 Ltac via E := rewrite E by discriminate; assumption.
 Ltac lks := repeat (lk; match goal with H : lookup _ _ = Ret _ |- _ => rewrite H end); lk.
+
+(* ---- frame conditions ---------------------------------------------------------------------------------------------------- *)
+Definition inb (x : string) (mods : list string) : bool := existsb (String.eqb x) mods.
+Definition unch (mods : list string) (en en' : env) : Prop := forall x, inb x mods = false -> lookup x en' = lookup x en.
+
+Lemma unch_refl mods en : unch mods en en.
+Proof. intros x _. reflexivity. Qed.
+
+Lemma unch_trans mods en1 en2 en3 : unch mods en1 en2 -> unch mods en2 en3 -> unch mods en1 en3.
+Proof. intros H1 H2 x Hx. rewrite (H2 x Hx). apply H1, Hx. Qed.
+
+Lemma inb_true_neq x y mods : inb x mods = false -> inb y mods = true -> x <> y.
+Proof. intros H1 H2 E. subst y. rewrite H1 in H2. discriminate. Qed.
+
+Lemma unch_update mods en en' y v : inb y mods = true -> unch mods en en' -> unch mods en (update y v en').
+Proof.
+  intros Hy H x Hx. rewrite lookup_update_other by (eapply inb_true_neq; eassumption). apply H, Hx.
+Qed.
+
+Lemma unch_weaken mods mods' en en' : (forall x, inb x mods' = false -> inb x mods = false) -> unch mods en en' -> unch mods' en en'.
+Proof. intros Hs H x Hx. apply H, Hs, Hx. Qed.
+
+Lemma inb_app_false x a b : inb x (a ++ b) = false -> inb x a = false /\ inb x b = false.
+Proof. unfold inb. rewrite existsb_app. apply orb_false_elim. Qed.
+
+Ltac un E := repeat match goal with |- context [lookup ?x ?e] => rewrite (E x) by reflexivity end.
+Ltac unch_solve := repeat (apply unch_update; [reflexivity|]); first [apply unch_refl|assumption].
 
 Section Repair.
   Variable ce : string -> list val -> res val.
@@ -605,6 +637,731 @@ Section Repair.
         * apply IH in H; [exact H|exact L1|exact L2].
         * destruct (dna_to_number_int (py_slice s (loc + 1) (loc + k + 1))) as [v'|e|]; cbn [bind] in H; try discriminate.
           apply IH in H; [exact H| |]; cbn [sc_splits sc_chunks sc_markers length]; rewrite !app_length; cbn [length]; lia.
+  Qed.
+
+  (* ---- stage 2: the fragment sets ---------------------------------------------------------------------------------------- *)
+  Lemma mem_val_strs x : forall l, mem_val (VStr x) (map VStr l) = mem_str x l.
+  Proof. induction l as [|y t IH]; [reflexivity|]. cbn [map mem_val mem_str val_eqb]. rewrite IH. reflexivity. Qed.
+
+  (* what `for _, fragment in record: if dna_sequence not in set: set.add(fragment)` does to the set, as a list in insertion order *)
+  Definition padd (l : list (list Z)) (rc : record) : list (list Z) :=
+    if mem_str s l then l else if mem_str (snd rc) l then l else l ++ [snd rc].
+  Definition madd (fs : list (list Z)) (rc : record) : list (list Z) :=
+    if mem_str s fs then fs else insert_str (snd rc) fs.
+
+  Definition add_mods : list string := ["repaired_fragment_set"; "_"; "fragment"].
+
+  Lemma add_loop occ pre post : forall recs l en,
+    lookup "repaired_fragment_set" en = Ret (VList (pre ++ VSet (map VStr l) :: post)) ->
+    lookup "index" en = Ret (VInt (Z.of_nat (length pre))) -> lookup "dna_sequence" en = Ret (VStr s) ->
+    exists en', for_loop ce fuel (TTuple ["_"; "fragment"]) add_stmt (map (v_record occ) recs) en = ONormal en' /\
+      lookup "repaired_fragment_set" en' = Ret (VList (pre ++ VSet (map VStr (fold_left padd recs l)) :: post)) /\
+      unch add_mods en en'.
+  Proof.
+    induction recs as [|[[kd nuc] str] recs IH]; intros l en H1 H2 H3.
+    - exists en. split; [reflexivity|]. split; [exact H1|apply unch_refl].
+    - cbn [map fold_left]. rewrite for_loop_cons. unfold v_record at 1. cbn [assign items lift bind_tuple seq].
+      set (en1 := update "fragment" (VStr str) (update "_" _ en)).
+      assert (E1 : unch ["_"; "fragment"] en en1) by (unfold en1; unch_solve).
+      assert (EX : exec ce fuel add_stmt en1 =
+                   ONormal (if mem_str s l then en1
+                            else update "repaired_fragment_set" (VList (pre ++ VSet (map VStr (padd l (kd, nuc, str))) :: post)) en1)).
+      { unfold add_stmt. cbn [exec eval]. un E1. rewrite H1, H2, H3. cbn [rbind]. rewrite index_mid. cbn [rbind].
+        cbn [cmp_top cmp_vals cmp_scalar key_ok]. rewrite mem_val_strs. cbn [lift truthy]. unfold padd.
+        destruct (mem_str s l); cbn [negb]; [reflexivity|].
+        rewrite index_mid. cbn [lift]. unfold en1 at 1. lk. cbn [lift key_ok snd]. rewrite mem_val_strs, store_mid. cbn [lift].
+        destruct (mem_str str l); [reflexivity|]. rewrite map_app. reflexivity. }
+      rewrite EX. cbn [seq].
+      destruct (mem_str s l) eqn:Em.
+      + destruct (IH l en1) as (en' & EL & R1 & U1); [un E1; exact H1|un E1; exact H2|un E1; exact H3|].
+        exists en'. split; [exact EL|]. split; [|eapply unch_trans; [|exact U1]; unfold en1; unch_solve].
+        replace (padd l (kd, nuc, str)) with l by (unfold padd; rewrite Em; reflexivity). exact R1.
+      + destruct (IH (padd l (kd, nuc, str)) (update "repaired_fragment_set" (VList (pre ++ VSet (map VStr (padd l (kd, nuc, str))) :: post)) en1))
+          as (en' & EL & R1 & U1); [lk; reflexivity|lk; un E1; exact H2|lk; un E1; exact H3|].
+        exists en'. split; [exact EL|]. split; [exact R1|].
+        eapply unch_trans; [|exact U1]. unfold en1. unch_solve.
+  Qed.
+
+  Lemma mem_str_iff x : forall l, mem_str x l = true <-> In x l.
+  Proof.
+    induction l as [|y t IH]; cbn [mem_str In]; [split; [discriminate|contradiction]|].
+    rewrite orb_true_iff, IH. split; (intros [H|H]; [left|right; exact H]).
+    - symmetry. apply listZ_eqb_true, H.
+    - subst y. apply rp_eqb_refl.
+  Qed.
+
+  Lemma mem_str_ext x l l' : (forall y, In y l <-> In y l') -> mem_str x l = mem_str x l'.
+  Proof.
+    intro H. destruct (mem_str x l) eqn:E1; destruct (mem_str x l') eqn:E2; try reflexivity.
+    - apply mem_str_iff, H, mem_str_iff in E1. congruence.
+    - apply mem_str_iff, H, mem_str_iff in E2. congruence.
+  Qed.
+
+  Lemma nodup_snoc {A} (x : A) : forall l, NoDup l -> ~ In x l -> NoDup (l ++ [x]).
+  Proof.
+    induction l as [|y t IH]; intros N H; cbn [app]; [constructor; [intros []|constructor]|].
+    apply NoDup_cons_iff in N. destruct N as [N1 N2]. constructor.
+    - rewrite in_app_iff. cbn [In]. intros [H1|[H1|[]]]; [contradiction|]. apply H. left. symmetry. exact H1.
+    - apply IH; [exact N2|]. intro H1. apply H. right. exact H1.
+  Qed.
+
+  (* the program's set (insertion order) against the model's (sorted) *)
+  Definition srel (l fr : list (list Z)) : Prop :=
+    NoDup l /\ StronglySorted lexlt fr /\ (forall x, In x l <-> In x fr).
+
+  Lemma srel_nil : srel [] [].
+  Proof. split; [constructor|split; [constructor|intro x; reflexivity]]. Qed.
+
+  Lemma srel_step l fr rc : srel l fr -> srel (padd l rc) (madd fr rc).
+  Proof.
+    intros (N & S & I). unfold padd, madd. rewrite (mem_str_ext s l fr I).
+    destruct (mem_str s fr); [split; [exact N|split; [exact S|exact I]]|].
+    split; [|split].
+    - destruct (mem_str (snd rc) l) eqn:E; [exact N|].
+      apply nodup_snoc; [exact N|]. intro Hx. apply mem_str_iff in Hx. congruence.
+    - apply insert_str_sorted, S.
+    - intro x. rewrite insert_str_in. destruct (mem_str (snd rc) l) eqn:E.
+      + rewrite <- I. apply mem_str_iff in E. split; [intro H; right; exact H|intros [->|H]; assumption].
+      + rewrite in_app_iff, <- I. cbn [In]. split; [intros [H|[H|[]]]; [right; exact H|left; symmetry; exact H]
+                                                    |intros [H|H]; [right; left; symmetry; exact H|left; exact H]].
+  Qed.
+
+  Lemma srel_fold : forall recs l fr, srel l fr -> srel (fold_left padd recs l) (fold_left madd recs fr).
+  Proof. induction recs as [|rc recs IH]; intros l fr H; [exact H|]. cbn [fold_left]. apply IH, srel_step, H. Qed.
+
+  Lemma ssorted_lex_nodup : forall l, StronglySorted lexlt l -> NoDup l.
+  Proof.
+    induction l as [|h t IH]; intros Hs; [constructor|].
+    apply StronglySorted_inv in Hs. destruct Hs as [Hst Hfa]. constructor; [|apply IH; exact Hst].
+    intro Hin. rewrite Forall_forall in Hfa. exact (lexlt_irrefl _ (Hfa _ Hin)).
+  Qed.
+
+  Lemma srel_perm l fr : srel l fr -> Permutation l fr.
+  Proof. intros (N & S & I). apply NoDup_Permutation; [exact N|apply ssorted_lex_nodup, S|exact I]. Qed.
+
+  Definition recall_mods : list string :=
+    ["recall"; "vertex_index"; "record"; "times"; "visited_times"; "repaired_fragment_set"; "_"; "fragment"].
+
+  Definition rc_inv (en : env) (ch : list Z) (pre post : list val) (l : list (list Z)) (vis : Z) : Prop :=
+    lookup "chuck_sequence" en = Ret (VStr ch) /\ lookup "accessor" en = Ret (varr2 acc) /\
+    lookup "observed_length" en = Ret (VInt k) /\ lookup "has_indel" en = Ret (VBool hi) /\
+    lookup "dna_sequence" en = Ret (VStr s) /\ lookup "index" en = Ret (VInt (Z.of_nat (length pre))) /\
+    lookup "visited_times" en = Ret (VInt vis) /\
+    lookup "repaired_fragment_set" en = Ret (VList (pre ++ VSet (map VStr l) :: post)).
+
+  Lemma exec_recall_body en ch pre post l vis r pv :
+    rc_inv en ch pre post l vis -> lookup "recall" en = Ret (VInt r) -> lookup "vertex_index" en = Ret (VInt pv) ->
+    match path_matching ch acc pv (k - r - 1) hi with
+    | Ok (recs, t) => exists en', exec ce fuel recall_body en = ONormal en' /\
+                        rc_inv en' ch pre post (fold_left padd recs l) (vis + t) /\ unch recall_mods en en'
+    | Raise e => exec ce fuel recall_body en = OExn e
+    | OutOfFuel => exec ce fuel recall_body en = OFuel
+    end.
+  Proof.
+    intros (I1 & I2 & I3 & I4 & I5 & I6 & I7 & I8) HR HV.
+    unfold recall_body. cbn [exec eval]. rewrite I1, I2, I3, I4, HR, HV. cbn [rbind binop_vals binop_scalar].
+    rewrite Hpm. destruct (path_matching ch acc pv (k - r - 1) hi) as [[recs t]|e|]; cbn [res_of_matching lift]; try reflexivity.
+    cbn [assign items lift bind_tuple seq]. lks. cbn [lift binop_vals binop_scalar seq].
+    set (en3 := update "visited_times" _ _).
+    assert (E3 : unch ["record"; "times"; "visited_times"] en en3) by (unfold en3; unch_solve).
+    unfold add_for. rewrite exec_for. cbn [eval]. unfold en3 at 1. lk. cbn [lift items].
+    destruct (add_loop (k - r - 1) pre post recs l en3) as (en' & EL & R1 & U1); [un E3; exact I8|un E3; exact I6|un E3; exact I5|].
+    exists en'. split; [exact EL|]. split.
+    - unfold rc_inv. split; [|split; [|split; [|split; [|split; [|split; [|split]]]]]]; try exact R1;
+        rewrite (U1 _) by reflexivity; try (un E3; assumption).
+      unfold en3. lk. reflexivity.
+    - eapply unch_trans; [|eapply unch_weaken; [|exact U1]].
+      + unfold en3. unch_solve.
+      + intros x Hx. unfold inb, recall_mods, add_mods in *. cbn [existsb] in *.
+        repeat (apply orb_false_elim in Hx; destruct Hx as [? Hx]). repeat (apply orb_false_intro; try assumption).
+  Qed.
+
+  Lemma recall_loop ch pre post : forall rm r l fr vis en,
+    srel l fr -> rc_inv en ch pre post l vis ->
+    match fragments_of ch acc k hi s rm r fr vis with
+    | Ok (fr', vis') =>
+        exists en' l', for_loop ce fuel (TTuple ["recall"; "vertex_index"]) recall_body (enumerate_from r (map VInt rm)) en = ONormal en' /\
+          srel l' fr' /\ rc_inv en' ch pre post l' vis' /\ unch recall_mods en en'
+    | Raise e => for_loop ce fuel (TTuple ["recall"; "vertex_index"]) recall_body (enumerate_from r (map VInt rm)) en = OExn e
+    | OutOfFuel => for_loop ce fuel (TTuple ["recall"; "vertex_index"]) recall_body (enumerate_from r (map VInt rm)) en = OFuel
+    end.
+  Proof.
+    induction rm as [|pv rm IH]; intros r l fr vis en HS HI.
+    - cbn [fragments_of map enumerate_from for_loop]. exists en, l. split; [reflexivity|]. split; [exact HS|]. split; [exact HI|apply unch_refl].
+    - cbn [fragments_of map enumerate_from]. rewrite for_loop_cons. cbn [assign items lift bind_tuple seq].
+      set (en1 := update "vertex_index" _ _).
+      assert (E1 : unch ["recall"; "vertex_index"] en en1) by (unfold en1; unch_solve).
+      assert (HI1 : rc_inv en1 ch pre post l vis).
+      { destruct HI as (I1 & I2 & I3 & I4 & I5 & I6 & I7 & I8). unfold rc_inv. un E1. repeat split; assumption. }
+      pose proof (exec_recall_body en1 ch pre post l vis r pv HI1 ltac:(unfold en1; lk; reflexivity) ltac:(unfold en1; lk; reflexivity)) as BS.
+      destruct (path_matching ch acc pv (k - r - 1) hi) as [[recs t]|e|]; cbn [bind fst snd]; [|rewrite BS; reflexivity|rewrite BS; reflexivity].
+      destruct BS as (en2 & EX & HI2 & U2). rewrite EX. cbn [seq].
+      specialize (IH (r + 1) (fold_left padd recs l) (fold_left madd recs fr) (vis + t) en2 (srel_fold recs l fr HS) HI2).
+      fold madd. change (fold_left (fun fs rc => madd fs rc) recs fr) with (fold_left madd recs fr).
+      destruct (fragments_of ch acc k hi s rm (r + 1) (fold_left madd recs fr) (vis + t)) as [[fr' vis']|e|]; try exact IH.
+      destruct IH as (en' & l' & EL & HS' & HI' & U'). exists en', l'. split; [exact EL|]. split; [exact HS'|]. split; [exact HI'|].
+      eapply unch_trans; [|exact U']. eapply unch_trans; [|exact U2]. unfold en1. unch_solve.
+  Qed.
+
+  Definition vl (l : list (list Z)) : val := VList (map VStr l).
+
+  Lemma exec_chunk_body en ch mk pre post vis :
+    rc_inv en ch pre post [] vis -> lookup "index_marker" en = Ret (varr mk) ->
+    match fragments_of ch acc k hi s (rev mk) 0 [] vis with
+    | Ok (fr', vis') =>
+        exists en' l', exec ce fuel chunk_body en = ONormal en' /\ Permutation l' fr' /\
+          lookup "repaired_fragment_set" en' = Ret (VList (pre ++ vl l' :: post)) /\
+          lookup "visited_times" en' = Ret (VInt vis') /\ unch recall_mods en en'
+    | Raise e => exec ce fuel chunk_body en = OExn e
+    | OutOfFuel => exec ce fuel chunk_body en = OFuel
+    end.
+  Proof.
+    intros HI HM. remember (exec ce fuel chunk_body en) as out eqn:EX.
+    unfold chunk_body in EX. cbn [exec] in EX. unfold recall_for in EX. rewrite exec_for in EX. cbn [eval] in EX. rewrite HM in EX.
+    unfold varr at 1 in EX. cbn [rbind builtin1_val items lift] in EX. rewrite <- map_rev in EX.
+    pose proof (recall_loop ch pre post (rev mk) 0 [] [] vis en srel_nil HI) as RL.
+    destruct (fragments_of ch acc k hi s (rev mk) 0 [] vis) as [[fr' vis']|e|]; [|rewrite RL in EX; exact EX|rewrite RL in EX; exact EX].
+    destruct RL as (en1 & l' & EL & HS & (I1 & I2 & I3 & I4 & I5 & I6 & I7 & I8) & U1). rewrite EL in EX. cbn [seq] in EX.
+    cbn [eval] in EX. rewrite I8, I6 in EX. cbn [rbind] in EX. rewrite index_mid in EX.
+    cbn [rbind builtin1_val items lift assign eval] in EX. rewrite I6, I8 in EX.
+    cbn [lift] in EX. rewrite store_mid in EX. cbn [lift] in EX.
+    eexists. exists l'. split; [exact EX|]. split; [apply srel_perm, HS|]. split; [lk; reflexivity|]. split; [lk; exact I7|].
+    apply unch_update; [reflexivity|exact U1].
+  Qed.
+
+  Definition chunk_mods : list string :=
+    ["index"; "chuck_sequence"; "index_marker"; "recall"; "vertex_index"; "record"; "times"; "visited_times"; "repaired_fragment_set"; "_"; "fragment"].
+
+  Lemma recall_chunk_mods x : inb x chunk_mods = false -> inb x recall_mods = false.
+  Proof.
+    intros Hx. unfold inb, recall_mods, chunk_mods in *. cbn [existsb] in *.
+    repeat (apply orb_false_elim in Hx; destruct Hx as [? Hx]). repeat (apply orb_false_intro; try assumption).
+  Qed.
+
+  Definition pairs (chunks markers : list (list Z)) : list val :=
+    map (fun p => VTuple [fst p; snd p]) (combine (map VStr chunks) (map varr markers)).
+
+  Lemma chunk_for : forall chunks markers done vis en, length chunks = length markers ->
+    lookup "accessor" en = Ret (varr2 acc) -> lookup "observed_length" en = Ret (VInt k) -> lookup "has_indel" en = Ret (VBool hi) ->
+    lookup "dna_sequence" en = Ret (VStr s) -> lookup "visited_times" en = Ret (VInt vis) ->
+    lookup "repaired_fragment_set" en = Ret (VList (done ++ repeat (VSet []) (length chunks))) ->
+    match all_fragments chunks markers acc k hi s vis with
+    | Ok (frs, vis') =>
+        exists en' frs', for_loop ce fuel (TPair "index" ["chuck_sequence"; "index_marker"]) chunk_body
+                           (enumerate_from (Z.of_nat (length done)) (pairs chunks markers)) en = ONormal en' /\
+          Forall2 (@Permutation (list Z)) frs' frs /\
+          lookup "repaired_fragment_set" en' = Ret (VList (done ++ map vl frs')) /\
+          lookup "visited_times" en' = Ret (VInt vis') /\ unch chunk_mods en en'
+    | Raise e => for_loop ce fuel (TPair "index" ["chuck_sequence"; "index_marker"]) chunk_body
+                           (enumerate_from (Z.of_nat (length done)) (pairs chunks markers)) en = OExn e
+    | OutOfFuel => for_loop ce fuel (TPair "index" ["chuck_sequence"; "index_marker"]) chunk_body
+                           (enumerate_from (Z.of_nat (length done)) (pairs chunks markers)) en = OFuel
+    end.
+  Proof.
+    induction chunks as [|ch chunks IH]; intros [|mk markers] done vis en HL H1 H2 H3 H4 H5 H6; try discriminate HL.
+    - cbn [all_fragments pairs map combine enumerate_from for_loop]. exists en, []. split; [reflexivity|]. split; [constructor|].
+      split; [exact H6|]. split; [exact H5|apply unch_refl].
+    - cbn [all_fragments]. unfold pairs. cbn [map combine enumerate_from fst snd]. rewrite for_loop_cons.
+      cbn [assign items lift bind_tuple seq].
+      set (en1 := update "index_marker" _ _).
+      assert (E1 : unch ["index"; "chuck_sequence"; "index_marker"] en en1) by (unfold en1; unch_solve).
+      assert (HI1 : rc_inv en1 ch done (repeat (VSet []) (length chunks)) [] vis).
+      { unfold rc_inv. un E1. cbn [length repeat] in H6. repeat split; try assumption; unfold en1; lk; reflexivity. }
+      pose proof (exec_chunk_body en1 ch mk done _ vis HI1 ltac:(unfold en1; lk; reflexivity)) as CB.
+      destruct (fragments_of ch acc k hi s (rev mk) 0 [] vis) as [[fr1 vis1]|e|]; cbn [bind fst snd];
+        [|rewrite CB; reflexivity|rewrite CB; reflexivity].
+      destruct CB as (en2 & l1 & EX & HP & R2 & V2 & U2). rewrite EX. cbn [seq].
+      assert (U12 : unch chunk_mods en en2).
+      { eapply unch_trans; [|eapply unch_weaken; [exact recall_chunk_mods|exact U2]]. unfold en1. unch_solve. }
+      specialize (IH markers (done ++ [vl l1]) vis1 en2 ltac:(cbn [length] in HL; lia)).
+      rewrite app_length in IH. cbn [length] in IH. replace (Z.of_nat (length done + 1)) with (Z.of_nat (length done) + 1) in IH by lia.
+      fold (pairs chunks markers).
+      rewrite !(U12 _) in IH by reflexivity. rewrite <- app_assoc in IH. cbn [app] in IH.
+      specialize (IH H1 H2 H3 H4 V2 R2).
+      destruct (all_fragments chunks markers acc k hi s vis1) as [[frs vis']|e|]; cbn [bind fst snd]; try exact IH.
+      destruct IH as (en' & frs' & EL & HF & R' & V' & U'). exists en', (l1 :: frs'). split; [exact EL|].
+      split; [constructor; assumption|]. split; [rewrite R', <- app_assoc; reflexivity|]. split; [exact V'|].
+      eapply unch_trans; eassumption.
+  Qed.
+
+  (* ---- the list of empty sets ------------------------------------------------------------------------------------------------ *)
+  Lemma zrange_up_length : forall n a st, length (zrange_up n a st) = n.
+  Proof. induction n as [|n IH]; intros a st; cbn [zrange_up length]; [reflexivity|rewrite IH; reflexivity]. Qed.
+
+  Lemma map_res_const {A B} (c : B) : forall l : list A, map_res (fun _ => Ret c) l = Ret (repeat c (length l)).
+  Proof. induction l as [|x t IH]; [reflexivity|]. cbn [map_res length repeat]. cbn [rbind]. rewrite IH. reflexivity. Qed.
+
+  Lemma range_nat (n : nat) : range3 0 (Z.of_nat n) 1 = Ret (zrange_up n 0 1).
+  Proof.
+    unfold range3. change (1 =? 0) with false. change (0 <? 1) with true. cbv iota.
+    replace (Z.to_nat ((Z.of_nat n - 0 + 1 - 1) / 1)) with n; [reflexivity|].
+    rewrite Z.div_1_r. lia.
+  Qed.
+
+  Lemma exec_rfs_init en markers : lookup "index_markers" en = Ret (VList (map varr markers)) ->
+    exec ce fuel rfs_init en = ONormal (update "repaired_fragment_set" (VList (repeat (VSet []) (length markers))) en).
+  Proof.
+    intro H. unfold rfs_init. cbn [exec eval]. rewrite H. cbn [rbind builtin1_val]. rewrite map_length, range_nat.
+    cbn [rbind items]. rewrite (map_res_const (VSet [])). rewrite zrange_up_length. reflexivity.
+  Qed.
+
+  (* ---- stage 3: count and the early exit ----------------------------------------------------------------------------------- *)
+  Definition count_of (frs : list (list (list Z))) (c : Z) : Z := fold_left (fun a f => a * Z.of_nat (length f)) frs c.
+
+  Lemma count_for : forall frs c en, lookup "count" en = Ret (VInt c) ->
+    exists en', for_loop ce fuel (TVar "fragments") (SAug (TVar "count") Mul (EB1 BLen (EVar "fragments"))) (map vl frs) en = ONormal en' /\
+      lookup "count" en' = Ret (VInt (count_of frs c)) /\ unch ["fragments"; "count"] en en'.
+  Proof.
+    induction frs as [|f frs IH]; intros c en H.
+    - exists en. split; [reflexivity|]. split; [exact H|apply unch_refl].
+    - cbn [map]. rewrite for_loop_cons. cbn [assign seq exec eval]. lk. rewrite H. unfold vl at 1.
+      cbn [lift rbind builtin1_val binop_vals binop_scalar]. rewrite map_length.
+      destruct (IH (c * Z.of_nat (length f)) (update "count" (VInt (c * Z.of_nat (length f))) (update "fragments" (vl f) en)))
+        as (en' & EL & C' & U'); [lk; reflexivity|].
+      exists en'. split; [exact EL|]. split; [exact C'|]. eapply unch_trans; [|exact U']. unch_solve.
+  Qed.
+
+  Lemma count_of_perm : forall frs' frs c, Forall2 (@Permutation (list Z)) frs' frs -> count_of frs' c = count_of frs c.
+  Proof.
+    intros frs' frs c H. revert c. induction H as [|l' l frs' frs HP HF IH]; intro c; [reflexivity|].
+    unfold count_of in *. cbn [fold_left]. rewrite (Permutation_length HP). apply IH.
+  Qed.
+
+  Definition early_result (vis : Z) : outcome :=
+    match vt with
+    | Some _ => match check_matches vt s with
+                | Ok true => OReturn (VTuple [VList [VStr s]; VTuple [VInt 0; VBool false; VInt 0; VInt vis]])
+                | Ok false => OReturn (VTuple [VList []; VTuple [VInt 0; VBool true; VInt 0; VInt vis]])
+                | Raise e => OExn e
+                | OutOfFuel => OFuel
+                end
+    | None => OReturn (VTuple [VList [VStr s]; VTuple [VInt 0; VBool false; VInt 0; VInt vis]])
+    end.
+
+  Lemma eval_check en x c cand : lookup "vt_check" en = Ret (VStr c) -> c <> [] -> lookup x en = Ret (VStr cand) ->
+    eval ce en (ECmp CEq (EVar "vt_check") (ECall "set_vt" [EVar x; EB1 BLen (EVar "vt_check")])) =
+    match check_matches (Some c) cand with Ok b => Ret (VBool b) | Raise e => Exn e | OutOfFuel => Fuel end.
+  Proof.
+    intros H1 Hc H2. cbn [eval]. rewrite H1, H2. cbn [rbind builtin1_val].
+    rewrite (proj2 Hce) by (destruct c; [congruence|cbn [length]; lia]).
+    unfold check_matches. destruct (set_vt cand (Z.of_nat (length c))) as [r|e|]; cbn [rbind bind]; try reflexivity.
+    cbn [cmp_top cmp_vals cmp_scalar mixes_bool is_arr orb val_eqb]. rewrite listZ_eqb_sym. reflexivity.
+  Qed.
+
+  Lemma exec_exit_if en count vis :
+    lookup "count" en = Ret (VInt count) -> lookup "heap_size" en = Ret (VInt heap) ->
+    lookup "vt_check" en = Ret (v_optstr' vt) -> lookup "dna_sequence" en = Ret (VStr s) ->
+    lookup "visited_times" en = Ret (VInt vis) ->
+    exec ce fuel exit_if en = if (count =? 0) || (heap <? count) then early_result vis else ONormal en.
+  Proof.
+    intros H1 H2 H3 H4 H5. unfold exit_if. rewrite exec_if. cbn [eval]. rewrite H1. cbn [rbind].
+    cbn [cmp_top cmp_vals cmp_scalar mixes_bool is_arr orb val_eqb rbind truthy]. rewrite H2. cbn [rbind is_arr].
+    assert (E : (if count =? 0 then Ret (VBool (count =? 0)) else Ret (VBool (heap <? count)))
+                = Ret (VBool ((count =? 0) || (heap <? count)))).
+    { destruct (count =? 0); reflexivity. }
+    rewrite E. cbn [lift truthy]. destruct ((count =? 0) || (heap <? count)); [|reflexivity].
+    unfold early_result. rewrite exec_if. cbn [eval]. rewrite H3.
+    destruct vt as [c|]; cbn [v_optstr' rbind builtin1_val truthy lift negb].
+    - rewrite exec_if. rewrite (eval_check en "dna_sequence" c s H3 Hvt H4).
+      destruct (check_matches (Some c) s) as [[|]|e|]; cbn [lift truthy]; try reflexivity.
+      + cbn [exec eval]. rewrite H4, H5. reflexivity.
+      + cbn [exec eval]. rewrite H5. reflexivity.
+    - cbn [exec eval]. rewrite H4, H5. reflexivity.
+  Qed.
+
+  (* ---- stage 4: product, recombination, check filter, sorted ------------------------------------------------------------- *)
+  Definition cart {A} (ls : list (list A)) : list (list A) :=
+    fold_right (fun l acc => flat_map (fun x => map (fun t => x :: t) acc) l) [[]] ls.
+
+  Lemma flat_map_map {A B C} (f : A -> B) (g : B -> list C) : forall l, flat_map g (map f l) = flat_map (fun x => g (f x)) l.
+  Proof. induction l as [|x t IH]; [reflexivity|]. cbn [map flat_map]. rewrite IH. reflexivity. Qed.
+
+  Lemma map_flat_map {A B C} (f : B -> C) (g : A -> list B) : forall l, map f (flat_map g l) = flat_map (fun x => map f (g x)) l.
+  Proof. induction l as [|x t IH]; [reflexivity|]. cbn [flat_map]. rewrite map_app, IH. reflexivity. Qed.
+
+  Lemma cart_map {A B} (f : A -> B) : forall ls, cart (map (map f) ls) = map (map f) (cart ls).
+  Proof.
+    induction ls as [|l ls IH]; [reflexivity|]. unfold cart in *. cbn [map fold_right]. rewrite IH.
+    rewrite flat_map_map, map_flat_map. apply flat_map_ext. intro x. rewrite !map_map. reflexivity.
+  Qed.
+
+  Lemma in_cart {A} : forall (ls : list (list A)) t, In t (cart ls) <-> Forall2 (@In A) t ls.
+  Proof.
+    induction ls as [|l ls IH]; intro t.
+    - cbn. split; [intros [<-|[]]; constructor|intro H; inversion H; left; reflexivity].
+    - unfold cart in *. cbn [fold_right]. rewrite in_flat_map. split.
+      + intros (x & Hx & Ht). apply in_map_iff in Ht. destruct Ht as (t' & <- & Ht'). constructor; [exact Hx|apply IH, Ht'].
+      + intro H. inversion H as [|x y t' l' Hx Ht']; subst. exists x. split; [exact Hx|]. apply in_map_iff. exists t'. split; [reflexivity|apply IH, Ht'].
+  Qed.
+
+  Lemma eval_product en frs : lookup "repaired_fragment_set" en = Ret (VList (map vl frs)) ->
+    eval ce en (EB1 BProduct (EVar "repaired_fragment_set")) = Ret (VList (map (fun fs => VTuple (map VStr fs)) (cart frs))).
+  Proof.
+    intro H. cbn [eval]. rewrite H. cbn [rbind builtin1_val].
+    rewrite (map_res_map _ vl (map VStr)) by (intros; reflexivity). cbn [rbind].
+    change (fold_right _ [[]] (map (map VStr) frs)) with (cart (map (map VStr) frs)).
+    rewrite cart_map, map_map. reflexivity.
+  Qed.
+
+  (* split_0 + f_0 + split_1 + f_1 + ... *)
+  Fixpoint weave (ss fs : list (list Z)) : list Z :=
+    match ss, fs with
+    | sp :: ss', f :: fs' => sp ++ f ++ weave ss' fs'
+    | _, _ => []
+    end.
+
+  Lemma index_mid_strs pre x post : index_val (VList (map VStr (pre ++ x :: post))) (VInt (Z.of_nat (length pre))) = Ret (VStr x).
+  Proof. unfold index_val. rewrite py_get_map, py_get_mid. reflexivity. Qed.
+
+  Lemma index_mid_tuple pre x post : index_val (VTuple (map VStr (pre ++ x :: post))) (VInt (Z.of_nat (length pre))) = Ret (VStr x).
+  Proof. unfold index_val. rewrite py_get_map, py_get_mid. reflexivity. Qed.
+
+  Lemma join_for lst : forall rest_s rest_f pre_s pre_f rds en,
+    length pre_s = length pre_f -> length rest_s = length rest_f ->
+    lookup "split_sequences" en = Ret (VList (map VStr (pre_s ++ rest_s ++ [lst]))) ->
+    lookup "fragments" en = Ret (VTuple (map VStr (pre_f ++ rest_f))) ->
+    lookup "repaired_dna_sequence" en = Ret (VStr rds) ->
+    exists en', for_loop ce fuel (TVar "index") join_body (zrange_up (length rest_s) (Z.of_nat (length pre_s)) 1) en = ONormal en' /\
+      lookup "repaired_dna_sequence" en' = Ret (VStr (rds ++ weave rest_s rest_f)) /\ unch ["index"; "repaired_dna_sequence"] en en'.
+  Proof.
+    induction rest_s as [|sp rest_s IH]; intros [|f rest_f] pre_s pre_f rds en L1 L2 H1 H2 H3; try discriminate L2.
+    - exists en. split; [reflexivity|]. split; [cbn [weave]; rewrite app_nil_r; exact H3|apply unch_refl].
+    - cbn [length zrange_up]. rewrite for_loop_cons. cbn [assign seq]. unfold join_body at 1. cbn [exec eval]. lk.
+      rewrite H1, H2, H3. cbn [lift rbind app]. rewrite index_mid_strs, L1, index_mid_tuple. cbn [rbind binop_vals binop_scalar lift].
+      set (en1 := update "repaired_dna_sequence" _ _).
+      destruct (IH rest_f (pre_s ++ [sp]) (pre_f ++ [f]) (rds ++ sp ++ f) en1) as (en' & EL & R' & U').
+      + rewrite !app_length, L1. reflexivity.
+      + cbn [length] in L2. lia.
+      + unfold en1. lk. rewrite H1, <- app_assoc. reflexivity.
+      + unfold en1. lk. rewrite H2, <- app_assoc. reflexivity.
+      + unfold en1. lk. reflexivity.
+      + rewrite app_length in EL. cbn [length] in EL. replace (Z.of_nat (length pre_s + 1)) with (Z.of_nat (length pre_s) + 1) in EL by lia.
+        exists en'. split; [cbn [seq]; rewrite <- L1; exact EL|]. split; [|eapply unch_trans; [|exact U']; unfold en1; unch_solve].
+        rewrite R'. cbn [weave]. rewrite <- !app_assoc. reflexivity.
+  Qed.
+
+  Definition sadd (c : list Z) (R : list (list Z)) : list (list Z) := if mem_str c R then R else R ++ [c].
+
+  Definition pstep (st : list (list Z) * bool) (cand : list Z) : result (list (list Z) * bool) :=
+    match check_matches vt cand with
+    | Ok true => Ok (sadd cand (fst st), snd st)
+    | Ok false => Ok (fst st, true)
+    | Raise e => Raise e
+    | OutOfFuel => OutOfFuel
+    end.
+
+  Fixpoint pfold (cands : list (list Z)) (st : list (list Z) * bool) : result (list (list Z) * bool) :=
+    match cands with
+    | [] => Ok st
+    | c :: t => st' <- pstep st c ;; pfold t st'
+    end.
+
+  Lemma exec_check en cand R fl :
+    lookup "vt_check" en = Ret (v_optstr' vt) -> lookup "repaired_dna_sequence" en = Ret (VStr cand) ->
+    lookup "repaired_results" en = Ret (VSet (map VStr R)) -> lookup "chuck_flag" en = Ret (VBool fl) ->
+    match pstep (R, fl) cand with
+    | Ok (R', fl') => exists en', exec ce fuel check_stmt en = ONormal en' /\
+                        lookup "repaired_results" en' = Ret (VSet (map VStr R')) /\ lookup "chuck_flag" en' = Ret (VBool fl') /\
+                        unch ["repaired_results"; "chuck_flag"] en en'
+    | Raise e => exec ce fuel check_stmt en = OExn e
+    | OutOfFuel => exec ce fuel check_stmt en = OFuel
+    end.
+  Proof.
+    intros H1 H2 H3 H4.
+    assert (ADD : exec ce fuel (SSetAdd "repaired_results" (EVar "repaired_dna_sequence")) en =
+                  ONormal (update "repaired_results" (VSet (map VStr (sadd cand R))) en)).
+    { cbn [exec eval]. rewrite H3, H2. cbn [lift key_ok]. rewrite mem_val_strs. unfold sadd.
+      destruct (mem_str cand R); [reflexivity|rewrite map_app; reflexivity]. }
+    remember (exec ce fuel check_stmt en) as out eqn:EX.
+    unfold check_stmt in EX. rewrite exec_if in EX. cbn [eval] in EX. rewrite H1 in EX. unfold pstep. cbn [fst snd].
+    destruct vt as [c|] eqn:Evt; cbn [v_optstr' rbind builtin1_val truthy lift negb] in EX.
+    - rewrite exec_if in EX. rewrite (eval_check en "repaired_dna_sequence" c cand H1 Hvt H2) in EX.
+      destruct (check_matches (Some c) cand) as [[|]|e|]; cbn [lift truthy] in EX; try exact EX.
+      + rewrite ADD in EX. eexists. split; [exact EX|]. split; [lk; reflexivity|]. split; [lk; exact H4|unch_solve].
+      + cbn [exec eval lift assign] in EX. eexists. split; [exact EX|]. split; [lk; exact H3|]. split; [lk; reflexivity|unch_solve].
+    - cbn [check_matches]. rewrite ADD in EX. eexists. split; [exact EX|]. split; [lk; reflexivity|]. split; [lk; exact H4|unch_solve].
+  Qed.
+
+  Definition prod_mods : list string := ["fragments"; "repaired_dna_sequence"; "index"; "repaired_results"; "chuck_flag"].
+
+  Lemma exec_product_body en ss lst fs R fl : length fs = length ss ->
+    lookup "split_sequences" en = Ret (VList (map VStr (ss ++ [lst]))) -> lookup "fragments" en = Ret (VTuple (map VStr fs)) ->
+    lookup "vt_check" en = Ret (v_optstr' vt) ->
+    lookup "repaired_results" en = Ret (VSet (map VStr R)) -> lookup "chuck_flag" en = Ret (VBool fl) ->
+    match pstep (R, fl) (weave ss fs ++ lst) with
+    | Ok (R', fl') => exists en', exec ce fuel product_body en = ONormal en' /\
+                        lookup "repaired_results" en' = Ret (VSet (map VStr R')) /\ lookup "chuck_flag" en' = Ret (VBool fl') /\
+                        unch prod_mods en en'
+    | Raise e => exec ce fuel product_body en = OExn e
+    | OutOfFuel => exec ce fuel product_body en = OFuel
+    end.
+  Proof.
+    intros HL H1 H2 H3 H4 H5.
+    remember (exec ce fuel product_body en) as out eqn:EX.
+    unfold product_body in EX. cbn [exec eval lift assign seq] in EX.
+    set (en1 := update "repaired_dna_sequence" (VStr []) en) in EX.
+    assert (E1 : unch ["repaired_dna_sequence"] en en1) by (unfold en1; unch_solve).
+    unfold join_loop in EX. rewrite exec_for in EX. cbn [eval] in EX. rewrite (E1 "split_sequences") in EX by reflexivity.
+    rewrite H1 in EX. cbn [rbind builtin1_val binop_vals binop_scalar] in EX.
+    replace (Z.of_nat (length (map VStr (ss ++ [lst]))) - 1) with (Z.of_nat (length ss)) in EX
+      by (rewrite map_length, app_length; cbn [length]; lia).
+    rewrite range_nat in EX. cbn [rbind lift items] in EX.
+    destruct (join_for lst ss fs [] [] [] en1 eq_refl (eq_sym HL)) as (en2 & EL & R2 & U2);
+      [un E1; exact H1|un E1; exact H2|unfold en1; lk; reflexivity|].
+    cbn [length] in EL. change (Z.of_nat 0) with 0 in EL. fold join_body in EX. rewrite EL in EX. cbn [seq] in EX.
+    assert (E2 : unch ["index"; "repaired_dna_sequence"] en en2).
+    { eapply unch_trans; [|exact U2]. unfold en1. unch_solve. }
+    rewrite R2 in EX. rewrite (E2 "split_sequences") in EX by reflexivity. rewrite H1 in EX.
+    cbn [lift rbind] in EX. rewrite map_app in EX. cbn [map] in EX. rewrite index_last in EX.
+    cbn [lift binop_vals binop_scalar app seq] in EX.
+    set (en3 := update "repaired_dna_sequence" _ en2) in EX.
+    assert (E3 : unch ["index"; "repaired_dna_sequence"] en en3).
+    { eapply unch_trans; [exact E2|]. unfold en3. unch_solve. }
+    pose proof (exec_check en3 (weave ss fs ++ lst) R fl ltac:(un E3; exact H3) ltac:(unfold en3; lk; reflexivity)
+                  ltac:(un E3; exact H4) ltac:(un E3; exact H5)) as CK.
+    destruct (pstep (R, fl) (weave ss fs ++ lst)) as [[R' fl']|e|]; [|rewrite CK in EX; exact EX|rewrite CK in EX; exact EX].
+    destruct CK as (en4 & EX4 & R4 & F4 & U4). rewrite EX4 in EX. exists en4. split; [exact EX|]. split; [exact R4|]. split; [exact F4|].
+    eapply unch_trans; [eapply unch_weaken; [|exact E3]|eapply unch_weaken; [|exact U4]];
+      intros x Hx; unfold inb, prod_mods in *; cbn [existsb] in *;
+      repeat (apply orb_false_elim in Hx; destruct Hx as [? Hx]); repeat (apply orb_false_intro; try assumption).
+  Qed.
+
+  Lemma product_for ss lst : forall tuples R fl en,
+    Forall (fun fs => length fs = length ss) tuples ->
+    lookup "split_sequences" en = Ret (VList (map VStr (ss ++ [lst]))) -> lookup "vt_check" en = Ret (v_optstr' vt) ->
+    lookup "repaired_results" en = Ret (VSet (map VStr R)) -> lookup "chuck_flag" en = Ret (VBool fl) ->
+    match pfold (map (fun fs => weave ss fs ++ lst) tuples) (R, fl) with
+    | Ok (R', fl') => exists en', for_loop ce fuel (TVar "fragments") product_body (map (fun fs => VTuple (map VStr fs)) tuples) en = ONormal en' /\
+                        lookup "repaired_results" en' = Ret (VSet (map VStr R')) /\ lookup "chuck_flag" en' = Ret (VBool fl') /\
+                        unch prod_mods en en'
+    | Raise e => for_loop ce fuel (TVar "fragments") product_body (map (fun fs => VTuple (map VStr fs)) tuples) en = OExn e
+    | OutOfFuel => for_loop ce fuel (TVar "fragments") product_body (map (fun fs => VTuple (map VStr fs)) tuples) en = OFuel
+    end.
+  Proof.
+    induction tuples as [|fs tuples IH]; intros R fl en HF H1 H2 H3 H4.
+    - cbn [map pfold for_loop]. exists en. split; [reflexivity|]. split; [exact H3|]. split; [exact H4|apply unch_refl].
+    - inversion HF as [|? ? HL HF']; subst. cbn [map pfold]. rewrite for_loop_cons. cbn [assign seq].
+      set (en1 := update "fragments" _ en).
+      assert (E1 : unch ["fragments"] en en1) by (unfold en1; unch_solve).
+      pose proof (exec_product_body en1 ss lst fs R fl HL ltac:(un E1; exact H1) ltac:(unfold en1; lk; reflexivity)
+                    ltac:(un E1; exact H2) ltac:(un E1; exact H3) ltac:(un E1; exact H4)) as PB.
+      destruct (pstep (R, fl) (weave ss fs ++ lst)) as [[R1 fl1]|e|]; cbn [bind]; [|rewrite PB; reflexivity|rewrite PB; reflexivity].
+      destruct PB as (en2 & EX & R2 & F2 & U2). rewrite EX. cbn [seq].
+      assert (E2 : unch prod_mods en en2) by (eapply unch_trans; [|exact U2]; unfold en1; unch_solve).
+      specialize (IH R1 fl1 en2 HF' ltac:(un E2; exact H1) ltac:(un E2; exact H2) R2 F2).
+      destruct (pfold (map (fun fs0 => weave ss fs0 ++ lst) tuples) (R1, fl1)) as [[R' fl']|e|]; try exact IH.
+      destruct IH as (en' & EL & R3 & F3 & U3). exists en'. split; [exact EL|]. split; [exact R3|]. split; [exact F3|].
+      eapply unch_trans; eassumption.
+  Qed.
+
+  (* sorted(list(set)) *)
+  Fixpoint ins_str (x : list Z) (l : list (list Z)) : list (list Z) :=
+    match l with
+    | [] => [x]
+    | h :: t => if lexltb h x then h :: ins_str x t else x :: l
+    end.
+  Definition isort (l : list (list Z)) : list (list Z) := fold_right ins_str [] l.
+
+  Lemma eval_sorted en R : lookup "repaired_results" en = Ret (VSet (map VStr R)) ->
+    eval ce en (EB1 BSorted (EB1 BList (EVar "repaired_results"))) = Ret (VList (map VStr (isort R))).
+  Proof.
+    intro H. cbn [eval]. rewrite H. cbn [rbind builtin1_val items].
+    rewrite (map_res_map _ VStr (fun x => x)) by (intros; reflexivity). cbn [rbind]. rewrite map_id.
+    f_equal. f_equal. f_equal. clear H. unfold isort. induction R as [|x R IH]; [reflexivity|]. cbn [fold_right]. rewrite IH.
+    generalize (fold_right ins_str [] R) as l. induction l as [|h t IHl]; [reflexivity|]. cbn [ins_str].
+    destruct (lexltb h x); [rewrite IHl|]; reflexivity.
+  Qed.
+
+  (* ---- the pure part of the tail: order does not matter --------------------------------------------------------------------- *)
+  Lemma cm_cases c : check_matches vt c = Ok true \/ check_matches vt c = Ok false \/ check_matches vt c = Raise ValueError.
+  Proof.
+    unfold check_matches. destruct vt as [chk|]; [|left; reflexivity].
+    assert (Hn : 1 <= Z.of_nat (length chk)) by (destruct chk; [congruence|cbn [length]; lia]).
+    destruct (set_vt_cases c (Z.of_nat (length chk)) Hn) as [(vs & ds & _ & _ & _ & _ & E)|E]; rewrite E; cbn [bind].
+    - destruct (listZ_eqb _ chk); [left|right; left]; reflexivity.
+    - right; right; reflexivity.
+  Qed.
+
+  Definition bad (c : list Z) : bool := match check_matches vt c with Ok _ => false | _ => true end.
+  Definition good (c : list Z) : bool := match check_matches vt c with Ok true => true | _ => false end.
+  Definition rej (c : list Z) : bool := match check_matches vt c with Ok false => true | _ => false end.
+
+  Lemma filter_checked_char : forall l,
+    filter_checked vt l = if existsb bad l then Raise ValueError else Ok (filter good l, existsb rej l).
+  Proof.
+    induction l as [|c t IH]; [reflexivity|]. cbn [filter_checked existsb filter]. unfold bad at 1, good at 1, rej at 1.
+    destruct (cm_cases c) as [E|[E|E]]; rewrite E; cbn [bind orb]; try reflexivity; rewrite IH; destruct (existsb bad t); reflexivity.
+  Qed.
+
+  Lemma pfold_char : forall l R fl,
+    pfold l (R, fl) = if existsb bad l then Raise ValueError
+                      else Ok (fold_left (fun R c => sadd c R) (filter good l) R, fl || existsb rej l).
+  Proof.
+    induction l as [|c t IH]; intros R fl; [cbn [pfold existsb filter fold_left]; rewrite orb_false_r; reflexivity|].
+    cbn [pfold existsb filter]. unfold pstep, bad at 1, good at 1, rej at 1.
+    destruct (cm_cases c) as [E|[E|E]]; rewrite E; cbn [bind orb fst snd]; try reflexivity; rewrite IH;
+      destruct (existsb bad t); try reflexivity.
+    rewrite orb_true_r. reflexivity.
+  Qed.
+
+  Lemma existsb_in_ext {A} (f : A -> bool) l l' : (forall x, In x l <-> In x l') -> existsb f l = existsb f l'.
+  Proof.
+    intro H. destruct (existsb f l) eqn:E1; destruct (existsb f l') eqn:E2; try reflexivity.
+    - apply existsb_exists in E1. destruct E1 as (x & Hx & Fx). assert (E : existsb f l' = true) by (apply existsb_exists; exists x; split; [apply H, Hx|exact Fx]). congruence.
+    - apply existsb_exists in E2. destruct E2 as (x & Hx & Fx). assert (E : existsb f l = true) by (apply existsb_exists; exists x; split; [apply H, Hx|exact Fx]). congruence.
+  Qed.
+
+  Lemma sadd_fold : forall l R, NoDup R ->
+    NoDup (fold_left (fun R c => sadd c R) l R) /\ forall x, In x (fold_left (fun R c => sadd c R) l R) <-> In x R \/ In x l.
+  Proof.
+    induction l as [|c t IH]; intros R N; cbn [fold_left].
+    - split; [exact N|]. intro x. cbn [In]. tauto.
+    - assert (N1 : NoDup (sadd c R)).
+      { unfold sadd. destruct (mem_str c R) eqn:E; [exact N|]. apply nodup_snoc; [exact N|]. intro Hc. apply mem_str_iff in Hc. congruence. }
+      destruct (IH (sadd c R) N1) as [N2 I2]. split; [exact N2|]. intro x. rewrite I2. cbn [In]. unfold sadd.
+      destruct (mem_str c R) eqn:E.
+      + apply mem_str_iff in E. split; [intros [H|H]; [left; exact H|right; right; exact H]|intros [H|[<-|H]]; [left; exact H|left; exact E|right; exact H]].
+      + rewrite in_app_iff. cbn [In]. tauto.
+  Qed.
+
+  Lemma ins_str_in x : forall l y, In y (ins_str x l) <-> y = x \/ In y l.
+  Proof.
+    induction l as [|h t IH]; intro y; cbn [ins_str In]; [split; [intros [H|[]]; left; auto|intros [H|[]]; left; auto]|].
+    destruct (lexltb h x); cbn [In]; [rewrite IH|]; split; intuition auto.
+  Qed.
+
+  Lemma ins_str_sorted x : forall l, StronglySorted lexlt l -> ~ In x l -> StronglySorted lexlt (ins_str x l).
+  Proof.
+    induction l as [|h t IH]; intros Hs Hn; cbn [ins_str]; [constructor; [constructor|constructor]|].
+    apply StronglySorted_inv in Hs. destruct Hs as [Hst Hall].
+    destruct (lexltb h x) eqn:E.
+    - constructor; [apply IH; [exact Hst|intro H; apply Hn; right; exact H]|].
+      rewrite Forall_forall in Hall |- *. intros y Hy. apply ins_str_in in Hy. destruct Hy as [->|Hy]; [exact E|apply Hall, Hy].
+    - assert (Hxh : lexlt x h).
+      { destruct (lexlt_total x h) as [H|[H|H]]; [exact H|exfalso; apply Hn; left; symmetry; exact H|unfold lexlt in H; congruence]. }
+      constructor; [constructor; assumption|]. constructor; [exact Hxh|].
+      rewrite Forall_forall in Hall |- *. intros y Hy. eapply lexlt_trans; [exact Hxh|apply Hall, Hy].
+  Qed.
+
+  Lemma isort_sorted : forall l, NoDup l -> StronglySorted lexlt (isort l) /\ forall x, In x (isort l) <-> In x l.
+  Proof.
+    induction l as [|h t IH]; intro N; [split; [constructor|intro x; reflexivity]|].
+    apply NoDup_cons_iff in N. destruct N as [N1 N2]. destruct (IH N2) as [S I]. unfold isort in *. cbn [fold_right]. split.
+    - apply ins_str_sorted; [exact S|]. intro H. apply N1, I, H.
+    - intro x. rewrite ins_str_in, I. cbn [In]. split; (intros [H|H]; [left; symmetry; exact H|right; exact H]).
+  Qed.
+
+  Lemma sorted_unique : forall l1 l2, StronglySorted lexlt l1 -> StronglySorted lexlt l2 -> (forall x, In x l1 <-> In x l2) -> l1 = l2.
+  Proof.
+    induction l1 as [|h1 t1 IH]; intros [|h2 t2] S1 S2 I.
+    - reflexivity.
+    - exfalso. apply (I h2). left. reflexivity.
+    - exfalso. apply (I h1). left. reflexivity.
+    - apply StronglySorted_inv in S1. destruct S1 as [S1 A1]. apply StronglySorted_inv in S2. destruct S2 as [S2 A2].
+      rewrite Forall_forall in A1, A2.
+      assert (E : h1 = h2).
+      { destruct (proj1 (I h1) (or_introl eq_refl)) as [H|H]; [symmetry; exact H|].
+        destruct (proj2 (I h2) (or_introl eq_refl)) as [H'|H']; [exact H'|].
+        exfalso. apply (lexlt_irrefl h1). eapply lexlt_trans; [apply A1, H'|apply A2, H]. }
+      subst h2. f_equal. apply IH; [exact S1|exact S2|]. intro x. split; intro H.
+      + destruct (proj1 (I x) (or_intror H)) as [<-|H']; [exfalso; exact (lexlt_irrefl _ (A1 _ H))|exact H'].
+      + destruct (proj2 (I x) (or_intror H)) as [<-|H']; [exfalso; exact (lexlt_irrefl _ (A2 _ H))|exact H'].
+  Qed.
+
+  Lemma tail_pure cands_p cands_m : (forall x, In x cands_p <-> In x cands_m) ->
+    match filter_checked vt cands_m with
+    | Ok (kept, flag) => exists R', pfold cands_p ([], false) = Ok (R', flag) /\ isort R' = sort_dedup kept
+    | Raise e => pfold cands_p ([], false) = Raise e
+    | OutOfFuel => pfold cands_p ([], false) = OutOfFuel
+    end.
+  Proof.
+    intro H. rewrite filter_checked_char, pfold_char. rewrite (existsb_in_ext bad cands_p cands_m H), (existsb_in_ext rej cands_p cands_m H).
+    destruct (existsb bad cands_m); [reflexivity|]. eexists. split; [reflexivity|].
+    destruct (sadd_fold (filter good cands_p) [] ltac:(constructor)) as [N I].
+    destruct (isort_sorted _ N) as [S1 I1]. destruct (sort_dedup_sorted (filter good cands_m)) as [S2 I2].
+    apply sorted_unique; [exact S1|exact S2|]. intro x. rewrite I1, I, I2, !filter_In, H. cbn [In]. tauto.
+  Qed.
+
+  Lemma in_recombine : forall ss frs lst x, length ss = length frs ->
+    (In x (recombine (ss ++ [lst]) frs) <-> exists fs, Forall2 (@In (list Z)) fs frs /\ x = weave ss fs ++ lst).
+  Proof.
+    induction ss as [|sp ss IH]; intros [|f0 frs] lst x HL; try discriminate HL.
+    - cbn [app recombine In]. split.
+      + intros [<-|[]]. exists []. split; [constructor|reflexivity].
+      + intros (fs & HF & ->). inversion HF; subst. left. reflexivity.
+    - cbn [app recombine]. rewrite in_flat_map. split.
+      + intros (tail & Ht & Hx). apply in_map_iff in Hx. destruct Hx as (f & <- & Hf).
+        apply IH in Ht; [|cbn [length] in HL; lia]. destruct Ht as (fs & HF & ->).
+        exists (f :: fs). split; [constructor; assumption|]. cbn [weave]. rewrite <- !app_assoc. reflexivity.
+      + intros (fs & HF & ->). inversion HF as [|f y fs' l' Hf HF']; subst.
+        exists (weave ss fs' ++ lst). split.
+        * apply IH; [cbn [length] in HL; lia|]. exists fs'. split; [exact HF'|reflexivity].
+        * apply in_map_iff. exists f. split; [|exact Hf]. cbn [weave]. rewrite <- !app_assoc. reflexivity.
+  Qed.
+
+  Lemma forall2_in_perm : forall (fs : list (list Z)) frs' frs,
+    Forall2 (@In (list Z)) fs frs' -> Forall2 (@Permutation (list Z)) frs' frs -> Forall2 (@In (list Z)) fs frs.
+  Proof.
+    intros fs frs' frs H. revert frs. induction H as [|f l' fs frs' Hf HF IH]; intros frs HP; inversion HP; subst; constructor.
+    - eapply Permutation_in; eassumption.
+    - apply IH. assumption.
+  Qed.
+
+  Lemma forall2_perm_sym : forall (a b : list (list (list Z))), Forall2 (@Permutation (list Z)) a b -> Forall2 (@Permutation (list Z)) b a.
+  Proof. intros a b H. induction H; constructor; [apply Permutation_sym; assumption|assumption]. Qed.
+
+  Lemma cands_equiv ss lst frs' frs : length ss = length frs -> Forall2 (@Permutation (list Z)) frs' frs ->
+    forall x, In x (map (fun fs => weave ss fs ++ lst) (cart frs')) <-> In x (recombine (ss ++ [lst]) frs).
+  Proof.
+    intros HL HP x. rewrite in_map_iff, (in_recombine ss frs lst x HL). split.
+    - intros (fs & <- & Hin). exists fs. split; [|reflexivity]. apply in_cart in Hin. eapply forall2_in_perm; eassumption.
+    - intros (fs & HF & ->). exists fs. split; [reflexivity|]. apply in_cart. eapply forall2_in_perm; [exact HF|apply forall2_perm_sym, HP].
+  Qed.
+
+  Lemma cart_lengths (ss : list (list Z)) frs' : length ss = length frs' -> Forall (fun fs : list (list Z) => length fs = length ss) (cart frs').
+  Proof.
+    intro HL. apply Forall_forall. intros fs Hin. apply in_cart in Hin. rewrite HL. eapply Forall2_length; exact Hin.
+  Qed.
+
+  (* ---- the prologue and the last statements ------------------------------------------------------------------------------------ *)
+  Lemma neg_ones n : binop_vals Sub (VInt 0) (VArr (repeat (VInt 1) n)) = Ret (varr (repeat (-1) n)).
+  Proof.
+    cbn [binop_vals broadcast_int]. unfold varr.
+    assert (E : (fix go (l : list val) : res (list val) :=
+                   match l with [] => Ret [] | x :: t => y <~ broadcast_int Sub false x 0 ;; ys <~ go t ;; Ret (y :: ys) end)
+                (repeat (VInt 1) n) = Ret (map VInt (repeat (-1) n))).
+    { induction n as [|n IH]; [reflexivity|]. cbn [repeat map]. cbn [broadcast_int binop_scalar rbind]. rewrite IH. reflexivity. }
+    rewrite E. reflexivity.
+  Qed.
+
+  Definition sc0 : scan := {| sc_splits := []; sc_chunks := []; sc_markers := []; sc_detected := 0; sc_visited := 0 |}.
+
+  Lemma exec_prologue rest v0 :
+    exists en0,
+      exec ce fuel (prologue rest)
+        [("dna_sequence", VStr s); ("accessor", varr2 acc); ("start_index", VInt v0); ("observed_length", VInt k);
+         ("vt_check", v_optstr' vt); ("has_indel", VBool hi); ("heap_size", VInt heap)] = exec ce fuel rest en0 /\
+      scan_inv en0 0 v0 (repeat (-1) (length s)) [] sc0.
+  Proof.
+    eexists. split.
+    - unfold prologue. cbn [exec eval lift seq rbind assign items bind_tuple builtin1_val lookup update String.eqb Ascii.eqb Bool.eqb].
+      rewrite Nat2Z.id, neg_ones. cbn [exec eval lift seq rbind assign items bind_tuple lookup update String.eqb Ascii.eqb Bool.eqb].
+      reflexivity.
+    - unfold scan_inv, frame, sc0. cbn [sc_splits sc_chunks sc_markers sc_detected sc_visited rev app map]. repeat split; reflexivity.
+  Qed.
+
+  Lemma exec_count_init en :
+    exec ce fuel count_init en = ONormal (update "count" (VInt 1) (update "repaired_results" (VSet []) en)).
+  Proof. reflexivity. Qed.
+
+  Lemma exec_final en R d fl c vis :
+    lookup "repaired_results" en = Ret (VSet (map VStr R)) -> lookup "detected_count" en = Ret (VInt d) ->
+    lookup "chuck_flag" en = Ret (VBool fl) -> lookup "count" en = Ret (VInt c) -> lookup "visited_times" en = Ret (VInt vis) ->
+    exec ce fuel final_return en = OReturn (VTuple [VList (map VStr (isort R)); VTuple [VInt d; VBool fl; VInt c; VInt vis]]).
+  Proof.
+    intros H1 H2 H3 H4 H5. unfold final_return.
+    change (exec ce fuel (SReturn ?e) en) with (lift (eval ce en e) OReturn).
+    pose proof (eval_sorted en R H1) as ES. cbn [eval] in ES |- *. rewrite ES, H2, H3, H4, H5. reflexivity.
   Qed.
 
 End Repair.
